@@ -414,9 +414,17 @@ impl Cnf {
         for clause in self.clauses.iter() {
             let mut clause_sat = false;
             for lit in clause.iter() {
-                if let Some(assgn) = partial_assignment.get(lit.label()) {
-                    if lit.polarity() == assgn {
-                        clause_sat = true;
+                match partial_assignment.get(lit.label()) {
+                    Some(assgn) => {
+                        if lit.polarity() == assgn {
+                            clause_sat = true;
+                        }
+                    }
+                    // x \/ !x over an unassigned variable holds in every extension
+                    None => {
+                        if clause.contains(&lit.negated()) {
+                            clause_sat = true;
+                        }
                     }
                 }
             }
